@@ -389,10 +389,10 @@ impl<'a, R: Clone> AsyncGlobalCache<'a, R> {
 
             // Expired - remove and continue
             drop(entry_ref);
-            self.cache.remove(key);
 
-            // Also remove from order queue to prevent orphaned keys
+            // Remove from store and order queue in one critical section
             let mut order = self.order.lock();
+            self.cache.remove(key);
             order.retain(|k| k != key);
         }
 
